@@ -891,9 +891,18 @@ def int_from_bytes(b, byteorder="big", *, signed=False):
         elems = elems[::-1]
     if not has_sym(elems):
         return builtins.int.from_bytes(builtins.bytes(elems), "big", signed=signed)
-    acc = 0
-    for e in elems:
-        acc = acc * 256 + e
+    n = len(elems)
+    if n <= 7:
+        # concatenation instead of a multiply-add chain: no 64-bit multipliers for the bit-blaster
+        parts = [z3.BitVecVal(e, 8) if isinstance(e, int) else z3.Extract(7, 0, zint(e)) for e in elems]
+        cat = z3.Concat(*parts) if n > 1 else parts[0]
+        lo = sum(_bounds(e)[0] << (8 * (n - 1 - i)) for i, e in enumerate(elems))
+        hi = sum(_bounds(e)[1] << (8 * (n - 1 - i)) for i, e in enumerate(elems))
+        acc = mk_int(z3.ZeroExt(W - 8 * n, cat), max(lo, 0), hi)
+    else:
+        acc = 0
+        for e in elems:
+            acc = acc * 256 + e
     if signed:
         n = len(elems)
         acc = ite(acc >= (1 << (8 * n - 1)), acc - (1 << (8 * n)), acc)
